@@ -673,8 +673,12 @@ class Interp(object):
 
             def elem_fn(v):
                 e2 = Env(parent=env, kind='func')
-                self.assign_target(loop.target, v, e2)
-                return self.eval(yexpr, e2)
+                self.pure_depth += 1
+                try:
+                    self.assign_target(loop.target, v, e2)
+                    return self.eval(yexpr, e2)
+                finally:
+                    self.pure_depth -= 1
             if isinstance(seq, SymIter):
                 return self.lib.SList(seq.length, lambda k: elem_fn(seq.element(k)))
             return [elem_fn(v) for v in seq]
